@@ -85,6 +85,10 @@ func sharedMode(t *testing.T, rec *Recorder) {
 				defer func(round int) {
 					solo := (&GenEnv{cache: map[*GenSpec]*Built{}, run: r}).Build(spec)
 					for k := 0; k < sc.K; k++ {
+						if sc.Pairing == "derive" { // every derived generator alone, from a base nothing else was derived from
+							fresh := (&GenEnv{cache: map[*GenSpec]*Built{}, run: r}).Build(spec)
+							solo = &Built{G: fresh.Derive(k)}
+						}
 						for i := 0; i < sc.Iters; i++ {
 							v, crashed := exampleOf(solo, seedOf(k, i))
 							rec.Emit("solo", F{"key": fmt.Sprintf("r%d/k%d/i%d", round, k, i), "draws": v, "crashed": crashed})
@@ -130,14 +134,35 @@ func sharedMode(t *testing.T, rec *Recorder) {
 					go func() {
 						defer wg.Done()
 						<-start
+						mine := shared
+						if sc.Pairing == "derive" { // every check derives its own generator from the shared one and draws from that
+							mine = &Built{G: shared.Derive(k)}
+						}
 						for i := 0; i < sc.Iters; i++ {
 							if k == 0 && sc.Pairing == "string" {
 								_ = shared.G.String()
 							}
-							if k == 1 && sc.Pairing == "sub" {
-								_ = rapid.SliceOfN(shared.G, 0, 3).Example(seedOf(k, i))
+							if k >= 1 && sc.Pairing == "sub" { // used as a sub-generator of another combinator, built and drawn from on the spot
+								var d *rapid.Generator[any]
+								switch k {
+								case 1:
+									d = rapid.SliceOfN(shared.G, 0, 3).AsAny()
+								case 2:
+									d = rapid.OneOf(shared.G, rapid.Just[any](0)).AsAny()
+								case 3:
+									d = shared.G.Filter(func(any) bool { return true })
+								case 4:
+									d = rapid.Map(shared.G, func(v any) any { return v })
+								default:
+									d = rapid.Custom(func(t *rapid.T) any { return shared.G.Draw(t, "s") })
+								}
+								_ = d.String()
+								func() {
+									defer func() { _ = recover() }()
+									_ = d.Example(seedOf(k, i))
+								}()
 							}
-							v, c := exampleOf(shared, seedOf(k, i))
+							v, c := exampleOf(mine, seedOf(k, i))
 							results[k] = append(results[k], v)
 							crashes[k] = append(crashes[k], c)
 						}
